@@ -27,7 +27,8 @@ COMPONENTS = {
              "pomegranate HMM fit + Viterbi", "pandas / numpy / scipy",
              "forked worker processes (pickling, inherited and carried-over process state)"],
     "simulated": ["ProcessPoolExecutor scheduling: worker choice, durations, completion order, "
-                  "parent/worker interleaving, worker death, in-task exception (SimPool)",
+                  "parent/worker interleaving, worker death, exceptions around and inside an arm's task "
+                  "(SimPool)",
                   "RNG state of workers at start (scramble)"],
     "stubbed_or_absent": ["cbs / flasso (no R in the sandbox): never run"],
 }
@@ -85,7 +86,9 @@ def _record(cnarr):
 
 def _wrap(orig):
     def wrapper(cnarr, *a, **k):
+        from sim.simpool import maybe_inner_fault
         _record(cnarr)
+        maybe_inner_fault("segment")  # armed per task by SimPool: a failure inside the arm's task
         return orig(cnarr, *a, **k)
     wrapper.__wrapped__ = orig
     return wrapper
@@ -284,7 +287,7 @@ def run_one(tape, tier, opts):
     ctx.pool_cfg["scramble_workers"] = tape.chance(1, 2, "pool.scramble")
     fault_kind = None
     if population == "fault":
-        fault_kind = tape.choice(["death", "exc", "death+exc"], "fault.family")
+        fault_kind = tape.choice(["death", "exc", "inner", "death+exc", "inner+death"], "fault.family")
     is_hmm = method.startswith("hmm")
 
     rundir = tempfile.mkdtemp(prefix="c03-", dir=os.environ.get("VERIF_SCRATCH"))
@@ -311,33 +314,33 @@ def run_one(tape, tier, opts):
                 return None, exc
             return out, None
 
-        # ---- serial ------------------------------------------------------------
-        out, exc = call(1)
-        surv, n_calls = _collect_obs()
-        if exc is not None:
-            feat = _raise_feature(table, method, skip_low, min_weight)
-            n_auto = _autosomal_survivors(surv)
-            if is_hmm and n_auto < HMM_MIN_AUTOSOMAL and not isinstance(exc, AssertionError):
-                # an HMM cannot be fitted to a handful of observations: precondition
-                # of the method, not a tiling violation
-                ctx.probe("hmm.degenerate_input_skipped")
-                raise Skip()
-            feat_n = n_auto
-            raise Violation("T2", f"C03/T2/{method}/raises/{type(exc).__name__}/{feat}",
-                            f"do_segmentation({method}, skip_low={skip_low}, skip_outliers={skip_outliers}, "
-                            f"min_weight={min_weight}) raised {type(exc).__name__}: {D.mask_text(exc)[:300]}")
-        n_filtered = table["n"] - len(surv)
-        if n_filtered:
-            ctx.probe("bins.filtered")
-        if len(table["arms"]) > len(table["plan"]["chroms"]):
-            ctx.probe("centromere.split")
-        ctx.probe("method." + method + ".serial")
-        check_table(out.data, table, surv, method, ctx)
-        serial_c = D.canon(out)
-        digests.append(D.digest(serial_c))
+        use_pool = processes > 1 and not is_hmm
+        # Which call comes first matters for state that leaks between calls: with the
+        # pool first, its workers are forked from a parent that has not segmented
+        # anything yet (each keeps only the state of the arms it ran itself), while the
+        # serial call runs every arm in one process.
+        pool_first = use_pool and tape.chance(1, 2, "seg.pool_first")
+        plan["pool_first"] = pool_first
 
-        # ---- under the pool ----------------------------------------------------
-        if processes > 1 and not is_hmm:
+        def serial_call():
+            out, exc = call(1)
+            surv, _n = _collect_obs()
+            if exc is not None:
+                feat = _raise_feature(table, method, skip_low, min_weight)
+                n_auto = _autosomal_survivors(surv)
+                if is_hmm and n_auto < HMM_MIN_AUTOSOMAL and not isinstance(exc, AssertionError):
+                    # an HMM cannot be fitted to a handful of observations: precondition
+                    # of the method, not a tiling violation
+                    ctx.probe("hmm.degenerate_input_skipped")
+                    raise Skip()
+                raise Violation("T2", f"C03/T2/{method}/raises/{type(exc).__name__}/{feat}",
+                                f"do_segmentation({method}, skip_low={skip_low}, skip_outliers={skip_outliers}, "
+                                f"min_weight={min_weight}) raised {type(exc).__name__}: "
+                                f"{D.mask_text(exc)[:300]} ({n_auto} autosomal bins survive)")
+            ctx.probe("method." + method + ".serial")
+            return out, surv
+
+        def pool_call():
             if population == "fault":
                 ctx.pool_cfg["fault_kinds"] = tuple(fault_kind.split("+"))
                 ctx.pool_cfg["fault_rate"] = (1, 3)
@@ -347,9 +350,31 @@ def run_one(tape, tier, opts):
             out, exc = call(processes)
             ctx.pool_cfg["fault_kinds"] = ()
             fired = sorted(k for k in ctx.faults
-                           if k in ("pool.death", "pool.exc") and ctx.faults[k] > base_f.get(k, 0))
+                           if k in ("pool.death", "pool.exc", "pool.inner")
+                           and ctx.faults[k] > base_f.get(k, 0))
             surv2, _n = _collect_obs()
             ctx.probe("method." + method + ".pool")
+            return out, exc, fired, surv2
+
+        pooled = None
+        if pool_first:
+            pooled = pool_call()
+            ctx.probe("order.pool_first")
+        out, surv = serial_call()
+        n_filtered = table["n"] - len(surv)
+        if n_filtered:
+            ctx.probe("bins.filtered")
+        if len(table["arms"]) > len(table["plan"]["chroms"]):
+            ctx.probe("centromere.split")
+        check_table(out.data, table, surv, method, ctx)
+        serial_c = D.canon(out)
+        digests.append(D.digest(serial_c))
+        if use_pool and pooled is None:
+            pooled = pool_call()
+
+        # ---- the pooled result against the serial one ---------------------------
+        if use_pool:
+            out, exc, fired, surv2 = pooled
             if exc is not None:
                 if not fired:
                     raise Violation("T6", f"C03/T6/{method}/raises",
@@ -357,14 +382,14 @@ def run_one(tape, tier, opts):
                                     f"{D.mask_text(exc)[:300]} (serial call succeeds)")
                 ctx.probe("fault.call_raised")
             else:
-                if not fired or True:
-                    d = D.diff(D.canon(out), serial_c)
-                    if d:
-                        clause = "F1" if fired else "T6"
-                        raise Violation(clause, f"C03/{clause}/{method}",
-                                        f"{method} processes={processes}"
-                                        f"{' after ' + str(fired) if fired else ''}: table differs from "
-                                        f"the serial table at {d}")
+                d = D.diff(D.canon(out), serial_c)
+                if d:
+                    clause = "F1" if fired else "T6"
+                    raise Violation(clause, f"C03/{clause}/{method}",
+                                    f"{method} processes={processes}"
+                                    f"{' after ' + str(fired) if fired else ''}"
+                                    f"{' (pool call made first)' if pool_first else ''}: table differs "
+                                    f"from the serial table at {d}")
                 if not fired:
                     if surv2 != surv:
                         raise Violation("T6", f"C03/T6/{method}/survivors",
@@ -373,7 +398,7 @@ def run_one(tape, tier, opts):
                 digests.append(D.digest(D.canon(out)))
             if fired:
                 out, exc = call(processes)
-                surv3, _n = _collect_obs()
+                _collect_obs()
                 if exc is not None:
                     raise Violation("F1", f"C03/F1/{method}/retry",
                                     f"fault-free retry after {fired} raised {type(exc).__name__}: "
@@ -399,7 +424,8 @@ def run_one(tape, tier, opts):
              for s in ctx.interleavings if len(s[1]) > 1]
     multi = bool(inter)
     structure = bool(n_filtered) or len(table["arms"]) > len(table["plan"]["chroms"])
-    nontrivial = structure and (multi or is_hmm or bool(ctx.faults.get("pool.death") or ctx.faults.get("pool.exc")))
+    nontrivial = structure and (multi or is_hmm or bool(ctx.faults.get("pool.death") or ctx.faults.get("pool.exc")
+                                                          or ctx.faults.get("pool.inner")))
     cfg_class = (f"{method}|low={int(skip_low)}|out={skip_outliers}|minw={min_weight}|"
                  f"p={_pclass(processes)}|{population}:{fault_kind}")
     tsig = hashlib.blake2b(repr((table["plan"], table["columns"]["start"][:16])).encode(),
